@@ -190,7 +190,7 @@ def universe():
     u += [I(z) for z in (-7, -2, -1, 0, 1, 2, 3, 5, 17, 100000, 100001)]
     u += [R(x) for x in (-1.5, 0.0, 0.5, 2.0, 2.5, 1e100)]
     u += [C("a"), C("b"), Y("a"), Y("foo")]
-    u += [S(s) for s in ("", "a", "ab", "aab", "abc", "hello", "abcdefg", "hello foo")]
+    u += [S(s) for s in ("", "a", "aa", "ab", "aaa", "aab", "abc", "hello", "abcdefg", "hello foo")]
     vecs = [[], [1], [0], [1, 2], [2, 3], [1, 2, 3], [3, 1, 2], [1, 2, 3, 4], [1, 1, 2, 1], [0, 1, 0, 1, 0], [1, 2, 3, 4, 5, 6],
             [-1, 2], [0, 2], [2, -1], [2, 2, 2],
             [1.5], [0.5, 2.5], [1.0, 2.0, 3.0], [1, 2.5], [1.5, 2, 3],
@@ -408,7 +408,7 @@ def quick_cases(keys_m, keys_d, U, rng, n_sample):
             for b in U:
                 if hangs(f, a, b):
                     continue
-                if (f in COUNT_LEFT and is_count(a)) or (f in COUNT_RIGHT and is_count(b)):
+                if (f in COUNT_LEFT and is_count(a)) or (f in COUNT_RIGHT and is_count(b)) or (a[0] != "l" and b[0] != "l"):
                     cs.append(Case(f, keys_d[f], a, b))
                 else:
                     rest.append((f, a, b))
@@ -574,7 +574,7 @@ def run(tier, replay=None):
     if tier == "thorough":
         cases = all_cases(keys_m, keys_d, U)
     else:
-        cases = quick_cases(keys_m, keys_d, U, rng, 9000)
+        cases = quick_cases(keys_m, keys_d, U, rng, 12000)
     B = 20000
     for i in range(0, len(cases), B):
         evaluate(chk, cases[i:i + B], out, seen)
@@ -613,7 +613,7 @@ def run(tier, replay=None):
     return chk.finish(
         rule="closed operand universe U (%d values: ints, reals, chars, symbols, strings of length 0-9, int/real/mixed vectors, char lists, "
              "matrices 1x1..3x4, a 2x2x3 array, ragged/nested lists to depth 3, lists with strings/symbols/[]/\"\"); quick = every modelled monad x U, "
-             "every dyad pair with a count operand for the count verbs, plus a seeded sample of the remaining pairs; thorough = full product. "
+             "every dyad pair with a count operand for the count verbs, every pair of two non-list operands, plus a seeded sample of 12000 of the remaining pairs; thorough = full product. "
              "distinct_nontrivial = distinct in-domain cases with a list or string operand" % len(U),
         trusted_base=TRUSTED, assumptions=ASSUME,
         extra={"outside_domain_model_mismatches": out.outside_mismatch[:12], "universe_size": len(U)})
